@@ -295,6 +295,44 @@ theorem append_total (cx : Cls) (a : Dt) (y : Arg) (c : Cls) (d : Dt) (cfg : DtA
     (h : Adm a y.dt) (hr : appendResult cx y.kind = some c) (hj : join a y.dt = some d) :
     appendDt ⟨cx, a⟩ y cfg = .ok ⟨c, d⟩ := appendDt_total cx a y c d cfg h hr hj
 
+/-- `P.lft(K)` (`StateSpace.lft`, the linear fractional transformation; `K` a StateSpace, a
+TransferFunction or a constant gain): if it returns, the result carries the common timebase of `P` and
+`K`; the timebase error only for incompatible operands. -/
+theorem lft_result_common (x : Sys) (other : Arg) (cfg : DtArg) (h : Adm x.dt other.dt) :
+    (∀ s, lftDt x other cfg = .ok s → join x.dt other.dt = some s.dt) ∧
+    (lftDt x other cfg = .error .timebase → join x.dt other.dt = Option.none) :=
+  lftDt_sound x other cfg h
+
+/-- … on the supported kinds (`lftResult`) compatible operands return a StateSpace with exactly the
+join … -/
+theorem lft_total (cx : Cls) (a : Dt) (y : Arg) (c : Cls) (d : Dt) (cfg : DtArg)
+    (h : Adm a y.dt) (hr : lftResult cx y.kind = some c) (hj : join a y.dt = some d) :
+    lftDt ⟨cx, a⟩ y cfg = .ok ⟨c, d⟩ := lftDt_total cx a y c d cfg h hr hj
+
+/-- … and incompatible operands are rejected with the timebase error. -/
+theorem lft_incompatible_timebase_error (cx : Cls) (a : Dt) (y : Arg) (c : Cls) (cfg : DtArg)
+    (h : Adm a y.dt) (hr : lftResult cx y.kind = some c) (hj : join a y.dt = Option.none) :
+    lftDt ⟨cx, a⟩ y cfg = .error .timebase := by
+  have e1 : common a y.dt = .error .timebase := by rw [common_adm h, hj]; rfl
+  have gb := givenDt_valid h.vb cfg
+  rcases y with ⟨cy, b⟩ | _ | _
+  · cases cx <;> cases cy <;> simp only [Arg.kind, lftResult, reduceCtorEq] at hr
+    all_goals
+      simp only [Arg.dt] at *
+      simp [lftDt, toSS, e1, gb, bind, Except.bind]
+  · simp [Arg.dt, join_none_right] at hj
+  · simp [Arg.dt, join_none_right] at hj
+
+-- a constant interconnection matrix (timebase `None`) closed with a sampled controller; `dt=True` with a
+-- sampling time; continuous with discrete; a TransferFunction controller; no `lft` on a TransferFunction
+example : lftDt ⟨.ss, .none⟩ (.sys ⟨.ss, .disc (1/10)⟩) (.num 0) = .ok ⟨.ss, .disc (1/10)⟩ := by decide +kernel
+example : lftDt ⟨.ss, .dtrue⟩ (.sys ⟨.tf, .disc (1/10)⟩) .btrue = .ok ⟨.ss, .disc (1/10)⟩ := by decide +kernel
+example : lftDt ⟨.ss, .disc (1/10)⟩ .array (.num 0) = .ok ⟨.ss, .disc (1/10)⟩ := by decide +kernel
+example : lftDt ⟨.ss, .cont⟩ (.sys ⟨.ss, .disc (1/10)⟩) (.num 0) = .error .timebase := by decide +kernel
+example : lftDt ⟨.ss, .disc (1/10)⟩ (.sys ⟨.ss, .disc (1/4)⟩) (.num 0) = .error .timebase := by decide +kernel
+example : lftDt ⟨.tf, .none⟩ (.sys ⟨.ss, .none⟩) (.num 0) = .error .notImplemented := by decide +kernel
+example : lftResult .ss (.cls .tf) = some .ss := rfl
+
 /-- and on incompatible operands every one of them raises the timebase error, except
 `StateSpace / StateSpace`, whose `except ValueError: return NotImplemented` turns it into a
 `TypeError` (still an error; see `binary_incompatible_raises`). -/
